@@ -26,7 +26,7 @@ LEVEL_TEXT = ("Scenarios with continuous release, deaths by IBM age limit and by
 LEVEL_NOTE = ("Tolerance 1e-9 with float64 forcing files, 2e-6 relative (f4 output precision) with float32 forcing files because u += dU accumulates in a different order after a restart. An additional final "
               "record at the stop time in the restarted run and a different default reference time are documented behaviour and are not judged.")
 RULE = ("case = scenario; every completed file except the last is a restart point. Non-trivial restart point: particles are released and die after it; distinct by scenario parameters and file index.")
-MANDATORY = ["restart_points", "records_compared", "newest_pids_dead_in_last_record", "newest_pids_dead_in_last_record_no_particle_variables", "new_release_after_restart", "death_after_restart", "left_grid", "duration_not_multiple_of_period", "scheme_EF", "scheme_RK2", "scheme_RK4",
+MANDATORY = ["forcing_in_several_files", "restart_between_forcing_files", "restart_points", "records_compared", "newest_pids_dead_in_last_record", "newest_pids_dead_in_last_record_no_particle_variables", "new_release_after_restart", "death_after_restart", "left_grid", "duration_not_multiple_of_period", "scheme_EF", "scheme_RK2", "scheme_RK4",
              "particle_variable_compared", "file_names_compared"]
 ASSUMPTIONS = ["diffusion off (as the property states)", "sparse layout (warm start reads particle_count)"]
 TIMEOUT = {"quick": 1200, "thorough": 3500}
@@ -56,7 +56,15 @@ def build(case: dict[str, Any]):
     nfr = ns // 3 + 3
     fr = [-1 + 3 * k for k in range(nfr + 1)]
     store = "f8" if case["idx"] % 4 else "f4"
-    world = dict(imax=imax, jmax=jmax, N=N, t0=C.T0, frames=[f * dt for f in fr], files=[len(fr)], store=store,
+    nfiles = [len(fr)]
+    if case["idx"] % 3:  # two thirds of the scenarios: forcing split over files, so that restart points fall between two files
+        nfiles = []
+        left = len(fr)
+        while left:
+            c = int(rng.integers(1, min(left, 3) + 1))
+            nfiles.append(c)
+            left -= c
+    world = dict(imax=imax, jmax=jmax, N=N, t0=C.T0, frames=[f * dt for f in fr], files=nfiles, store=store,
                  vel=dict(kind="jet", u=sp * np.cos(ang), v=sp * np.sin(ang), shear=0.4, frame_amp=[float(x) for x in rng.uniform(0.6, 1.3, size=len(fr))],
                           profile=[float(x) for x in rng.uniform(0.4, 1.0, size=N)]),
                  h=dict(kind="random", hmin=30.0, hmax=150.0, seed=case["idx"]), metric=dict(kind="uniform", dx=dx, dy=dx),
@@ -131,6 +139,7 @@ def run_case(case: dict[str, Any], wd: Path) -> dict[str, Any]:
         resA, confA, world = run_scenario(scn, wd / "A")
     sit[f"scheme_{par['scheme']}"] = 1
     sit["duration_not_multiple_of_period"] = int(par["ns"] % par["P"] != 0)
+    sit["forcing_in_several_files"] = int(len(scn["world"]["files"]) > 1)
     if not resA.ok:
         # the uninterrupted run is the reference; its own failures are C06/C07's subject
         return C.result([], sit, cnt, nontrivial=False, key=str(case["idx"]), sample=desc, void=True, note=f"uninterrupted run failed: {resA.exc}")
@@ -153,6 +162,11 @@ def run_case(case: dict[str, Any], wd: Path) -> dict[str, Any]:
         newest_dead = last_max + 1 < snap["npid"] and not pid_gap  # newest particles are in the file but no longer in its last record
         sit["newest_pids_dead_in_last_record"] = sit.get("newest_pids_dead_in_last_record", 0) + int(newest_dead)
         sit["newest_pids_dead_in_last_record_no_particle_variables"] = sit.get("newest_pids_dead_in_last_record_no_particle_variables", 0) + int(newest_dead and fk.nparticle_dim == 0)
+        fr_s = scn["world"]["frames"]
+        cuts = np.cumsum(scn["world"]["files"])[:-1]
+        t_rs = int((t_restart - np.datetime64(C.T0, "s")) / np.timedelta64(1, "s"))
+        if any(fr_s[c - 1] < t_rs < fr_s[c] for c in cuts):
+            sit["restart_between_forcing_files"] = sit.get("restart_between_forcing_files", 0) + 1
         run2 = dict(scn["run"], warm_start=dict(filename=str(fk.path), variables=(["release_time"] if par["pvars"] else []) + ["age", "weight", "temp"]))
         run2["output"] = dict(scn["run"]["output"], filename=f"out_{k + 1:03d}.nc")
         sub = wd / f"B{k}"
